@@ -34,9 +34,12 @@ import itertools, struct
 PROPERTY = "C10"
 FAMILY = "c10"
 LEAN_MODULE = "ElfioVerif.Props.C10"
-THEOREMS = ["ElfioVerif.C10.arrange_total", "ElfioVerif.C10.arrange_fuel", "ElfioVerif.C10.arrange_perm",
-            "ElfioVerif.C10.arrange_partition", "ElfioVerif.C10.arrange_ret", "ElfioVerif.C10.arrange_relocs",
-            "ElfioVerif.C10.arrange_empty", "ElfioVerif.C10.arrange_refines"]
+THEOREMS = ["ElfioVerif.C10.arrange_refines", "ElfioVerif.C10.arrange_total", "ElfioVerif.C10.arrange_fuel",
+            "ElfioVerif.C10.arrange_arranged", "ElfioVerif.C10.arrange_perm", "ElfioVerif.C10.arrange_partition",
+            "ElfioVerif.C10.arrange_ret", "ElfioVerif.C10.arrange_relocs", "ElfioVerif.C10.relEntryAt_getEntry",
+            "ElfioVerif.C10.arrange_empty",
+            "ElfioVerif.Arr.absArrange_arranged", "ElfioVerif.Arr.absArrange_relocs", "ElfioVerif.Arr.absArrange_isSome",
+            "ElfioVerif.Arrange.loop_refines", "ElfioVerif.Arrange.swapSymbols_spec"]
 SITES = ["arr", "rsw"]
 RULE = ("exhaustively every binding pattern (local/global/weak) of 0..K symbols behind the null symbol "
         "(K=6 quick on rotating configurations + K=4 on all four, K=8 x 4 configurations thorough), each with one relocation "
